@@ -333,6 +333,11 @@ def oracle(ctx, hints, broken):
     b, k = identity_checks(sj, rng)
     viol += b
     n += k
+    from lib import models as MM
+    b, k = MM.check_small_units()
+    for x in b:
+        C.push(viol, x)
+    n += k
     # exhaustive small single-element sweep of the dense routines (where off-by-one and wrap-around live)
     for T in range(1, 6 if not deep else 8):
         M = rng.imat(T, T)
